@@ -2,6 +2,6 @@ CONSTANTS
   MaxLen = 12
   Faults <- FaultFromEnv
 SPECIFICATION Spec
-INVARIANTS TypeOK ReadInBounds AllocBounded WorkBounded CursorInside OutcomeTotal
-PROPERTIES ChunkProgress ArrayProgress StringProgress Termination
+INVARIANTS TypeOK ReadInBounds AllocBounded WorkBounded CursorInside OutcomeTotal TableIndexInBounds OutputBounded BackrefInBounds
+PROPERTIES ChunkProgress ArrayProgress StringProgress TokenProgress Termination
 CHECK_DEADLOCK TRUE
